@@ -408,4 +408,24 @@ theorem lineStr_spec (st : St) (inp len : Nat) :
     rw [streamOf_getD st inp len j (by omega)] at this
     exact this
 
+/-! ## a concrete state for the non-vacuity `example`s: dest = 100 (8 cells holding 7), the stream `"ab\ncd"` at 200 -/
+def getsExSt : St :=
+  { data := fun a => if 100 ≤ a ∧ a < 108 then 7 else if a = 200 then 97 else if a = 201 then 98 else if a = 202 then 10
+      else if a = 203 then 99 else if a = 204 then 100 else 0
+    mapped := fun a => decide (100 ≤ a ∧ a < 108 ∨ 200 ≤ a ∧ a < 205)
+    rd := fun a => decide (100 ≤ a ∧ a < 108 ∨ 200 ≤ a ∧ a < 205)
+    wr := fun a => decide (100 ≤ a ∧ a < 108) }
+
+theorem getsExSt_rw : RW getsExSt 100 8 := by
+  intro i hi
+  simp only [getsExSt, decide_eq_true_eq]
+  omega
+
+theorem getsExSt_rd : ∀ j, j < 5 → getsExSt.mapped (200+j) = true ∧ getsExSt.rd (200+j) = true := by
+  intro j hj
+  simp only [getsExSt, decide_eq_true_eq]
+  omega
+
+theorem getsExSt_line : lineOf (streamOf getsExSt 200 5) = [97, 98] := by decide
+
 end SafeC
